@@ -127,7 +127,11 @@ def render(case):
     t = PPTable(records, **kwargs)
     if (len(records) + len(kwargs['fmt'])) % 3 == 0:
         # the same table built from a format object (another table's .fmt), as ak/mcaller_sql.py does
-        t = PPTable(records, fmt_obj=t.fmt, header=kwargs['header'], footer=kwargs['footer'])
+        src = t.fmt
+        t = PPTable(records, fmt_obj=src, header=kwargs['header'], footer=kwargs['footer'])
+        # a sibling built from the same format object with its own limits and without the first column: the format
+        # object and the tables built from it earlier must not change
+        PPTable(records, fmt_obj=src, limits=(0, 1), skip_columns=[kwargs['fields'][0]])
     if (len(records) + len(kwargs['fmt'])) % 3 == 1:
         # printed side by side with another table: the two renderings are consumed in alternation
         from ak.color import CHText
